@@ -299,7 +299,9 @@ def main():
             _SETUP[kind] = s
             singles = single_damages(s, t)
             red = reduced_damages(s)
-            pairs = [('pair', a, b) for a, b in itertools.combinations(red, 2) if a[1] != b[1]]
+            def objs(sp):
+                return {x for x in sp[1:] if isinstance(x, str)}
+            pairs = [('pair', a, b) for a, b in itertools.combinations(red, 2) if not (objs(a) & objs(b))]
             if t == 'quick':
                 pairs = pairs[::7]
             counts[kind] = {'objects': len([k for k in s['o'] if '/' in k]), 'single': len(singles), 'pairs': len(pairs),
